@@ -175,6 +175,59 @@ pub fn run_c09(ctx: &mut Ctx) -> (String, Value, Vec<String>) {
             }
         }
     }
+    // sparse supplies and long demands (hundreds of ticks, many iterations of an iterative
+    // inverse): every demand up to 4P for P up to 40 / 64, specialised and default implementation
+    let pwide = if ctx.quick() { 40u64 } else { 64 };
+    for p in (pmax + 1)..=pwide {
+        let mut qs: Vec<u64> = vec![1, 2, 3, p / 2, p - 1];
+        qs.sort();
+        qs.dedup();
+        for q in qs {
+            if q == 0 || q > p {
+                continue;
+            }
+            let mut dls = vec![q, p, (q + p) / 2];
+            dls.sort();
+            dls.dedup();
+            for dl in dls {
+                let r = Reservation { q: q as u8, dl: dl as u8, p: p as u8 };
+                let h = (6 * p + 3) as usize;
+                let (m, ns, nt) = r.sbf(h);
+                states += ns as u64;
+                trans += nt as u64;
+                let pu = p as usize;
+                if !(2 * pu..=h - pu).all(|x| m[x + pu] == m[x] + q) {
+                    machinery_error(&format!("reservation automaton ({q},{dl},{p}): sbf is not periodic from 2P on"));
+                }
+                let spec = SupplySpec::Constrained { q, dl, p };
+                let sup = spec.build();
+                let opaque = SupplySpec::Opaque(Box::new(spec.clone())).build();
+                for dem in 0..=4 * p {
+                    // least t with sbf(t) >= dem, through the periodic extension when needed
+                    let want = if dem <= m[h] {
+                        (0..=h as u64).find(|t| m[*t as usize] >= dem).unwrap()
+                    } else {
+                        let k = (dem - m[2 * pu] - 1) / q;
+                        let rest = dem - k * q;
+                        (0..=h as u64).find(|t| m[*t as usize] >= rest).unwrap() + k * p
+                    };
+                    for (which, s) in [("", &sup), ("(default impl via opaque wrapper)", &opaque)] {
+                        evals += 1;
+                        match catch(|| du(s.service_time(crate::spec::s(dem)))) {
+                            Ok(got) if got == want => {}
+                            Ok(got) => ctx.violation(
+                                &format!("supply::Constrained::service_time{}#not-exact-inverse", if which.is_empty() { "" } else { "-default" }),
+                                &format!("supply::Constrained({q},{dl},{p}).service_time({dem}) {which} = {got}, least t with sbf(t) >= {dem} is {want}"),
+                                "sbf-case",
+                                json!({"spec": spec, "demand": dem, "default": !which.is_empty()}),
+                            ),
+                            Err(e) => ctx.violation("supply::Constrained::service_time#panic", &format!("supply::Constrained({q},{dl},{p}).service_time({dem}) {which} panicked: {e}"), "sbf-case", json!({"spec": spec, "demand": dem})),
+                        }
+                    }
+                }
+            }
+        }
+    }
     // algebraic laws on a larger range: Constrained(q,p,p) == Periodic(q,p); q = p == Dedicated
     for p in 1..=palg {
         for q in 1..=p {
@@ -210,7 +263,7 @@ pub fn run_c09(ctx: &mut Ctx) -> (String, Value, Vec<String>) {
         "samples": samples,
         "evaluations": evals,
         "distinct_nontrivial": nontrivial,
-        "rule": format!("every (Q,D,P) with P<={pmax}: reservation automaton explored, min service over all paths of every length <= 4P+3 compared with provided_service; service_time vs exact inverse for demands <= 4Q (specialised and default implementation); three far windows (up to 2^62) and three far demands (up to 2^56) against the periodic extension of the model sbf (periodicity validated on the explored range); laws for P<={palg}; non-trivial = window lengths whose minimum service is strictly between 0 and delta"),
+        "rule": format!("every (Q,D,P) with P<={pmax}: reservation automaton explored, min service over all paths of every length <= 4P+3 compared with provided_service; service_time vs exact inverse for demands <= 4Q (specialised and default implementation); every demand up to 4P for sparse reservations with P up to 40/64; three far windows (up to 2^62) and three far demands (up to 2^56) against the periodic extension of the model sbf (periodicity validated on the explored range); laws for P<={palg}; non-trivial = window lengths whose minimum service is strictly between 0 and delta"),
         "automata_validated_against_literal_placements": validated,
         "exhaustive": true,
     });
